@@ -65,6 +65,7 @@ var heavyHarness = map[string]int{
 	"H_C06_generated": 1, "H_C06_pure": 2,
 	"H_C14_extremes": 1,
 	"H_C10_selectors": 1,
+	"H_C12_string": 1,
 	"H_C15_strict": 1, "H_C15_unordered": 1,
 }
 
